@@ -491,7 +491,12 @@ def rn10(prog, rr):
         rr.finding(add, add.node, _q(add), "RN10: an element created while a call is running (pre-extension of a random-size list) is not given its used-random "
                    "status: with fields starting as not-random it would be left out of the solve", text="new element status")
     for c in calls:
-        if not c.args or "self.is_used_rand" not in norm(c.args[0]):
+        if c.args and norm(c.args[0]) == "self.is_used_rand":
+            rr.finding(add, c, _q(add), "RN10: the new element's status is taken from the list's own flag, which composites keep from the previous call: an "
+                       "element appended BETWEEN calls is created used-random and a later call that only references it overwrites it; the size field "
+                       "(locked after every call) tells whether a call is solving this list", text="new element status from stale list flag")
+            continue
+        if not c.args or norm(c.args[0]) not in ("self.size.is_used_rand", "self.is_used_rand"):
             rr.finding(add, c, _q(add), "RN10: the new element's status is %s, not derived from the list's own status: elements of a list inside a non-random "
                        "sub-object become random" % norm(c), text="new element status source")
 
